@@ -303,7 +303,8 @@ func (u *Url) IsIPv4() bool {
 
 // IsIPv6 tells if the host is an IPv6 address.
 func (u *Url) IsIPv6() bool {
-	return u.host != nil && strings.HasPrefix(*u.host, "[")
+	// a host that merely starts with '[' (possible with lax host parsing: http://%5bx/) is not a literal
+	return u.host != nil && strings.HasPrefix(*u.host, "[") && strings.HasSuffix(*u.host, "]")
 }
 
 // isIPv4Address tells if s is a serialized IPv4 address: four dot-separated decimal numbers
